@@ -971,6 +971,9 @@ func (t *tr3) stmt3(s ast.Stmt) string {
 		if !ok {
 			t.fail(x, "expression statement")
 		}
+		if isGosched(call) {
+			return "TSkip"
+		}
 		return "(TEffect " + t.effectCall(x, call) + ")"
 	case *ast.DeferStmt:
 		return "(TDefer " + t.effectCall(x, x.Call) + ")"
